@@ -224,10 +224,17 @@ def value_of(v):
     return n0struct.n0dict.convert_recursively(copy.deepcopy(v)) if isinstance(v, (dict, list)) else v
 
 
+def set_value(op):
+    """the object a 'set' op assigns: converted (n0dict/n0list) by default, the plain container when op[3] == 'plain'"""
+    if len(op) > 3 and op[3] == "plain":
+        return copy.deepcopy(op[2])
+    return value_of(op[2])
+
+
 def apply_op(obj, op):
     k = op[0]
     if k == "set":
-        obj[op[1]] = value_of(op[2])
+        obj[op[1]] = set_value(op)
     elif k == "del":
         obj.delete(op[1], bool(op[2]))
     elif k == "pop":
@@ -248,7 +255,7 @@ def apply_op(obj, op):
 def op_lit(op):
     k = op[0]
     if k == "set":
-        return "WSet %s (%s)" % (L.pstr(op[1]), tree_lit(value_of(op[2])))
+        return "WSet %s (%s)" % (L.pstr(op[1]), tree_lit(set_value(op)))
     if k == "del":
         return "WDel %s %s" % (L.pstr(op[1]), L.boolean(bool(op[2])))
     return "WPop %s %s" % (L.pstr(op[1]), L.boolean(bool(op[2])))
